@@ -254,6 +254,7 @@ func TestC16_LiveSwitch(t *testing.T) {
 	twins(t)
 	c := ev.New("C16", "live-switch", "exploration")
 	t.Cleanup(c.Flush)
+	t.Cleanup(func() { drainExcluded(c) })
 	c.Rule("[OUTPUT json,] 0-3 keyspace commands, SUBSCRIBE/PSUBSCRIBE of 1-2 channels (the connection goes live), then 1-4 of PING x, (P)SUBSCRIBE, (P)UNSUBSCRIBE, GET (refused in this context), as one RESP byte stream cut at 0-6 random points (uncut in a fifth of the cases), followed by a separate final packet PING zz-final + QUIT; the replies until EOF must equal those of the run with one command per packet, each awaited, on the twin. Waits inside the cut run are never verdicts. Non-trivial: a cut strictly inside a command that is read by the live loop, or several commands behind the going-live command in one segment; distinct by (output, first, live commands, cut classes). A deterministic probe (SUBSCRIBE ca | PING x | SUBSCRIBE cb in one packet) runs first; while the finding " + liveSwitchID + " is listed as known, a cut right after the going-live command is forced and counted as excluded.")
 	// deterministic probe
 	probe := switchCase{First: []string{"SUBSCRIBE", "ca"}, Live: [][]string{{"PING", "x"}, {"SUBSCRIBE", "cb"}}}
